@@ -3,7 +3,7 @@ evaluated directly on the real crate's outputs."""
 from . import core, gen, engine, engprop
 from .core import hexs
 
-TEMPLATES = [("T", "x"), ("N", "x"), ("C", "x"), ("I", ""), ("T", "[$0]"), ("T", "$1-"), ("T", "${1}$$"), ("T", "<$n1>"), ("T", ""), ("N", "$1")]
+TEMPLATES = [("T", "x"), ("N", "x"), ("C", "x"), ("I", ""), ("T", "[$0]"), ("T", "$1-"), ("T", "${1}$$"), ("T", "<$n1>"), ("T", ""), ("N", "$1"), ("T", "$$$1"), ("T", "$$$$")]
 
 
 def probes_for(info, t, splitn=(0, 1, 2, 3, 5), limits=(0, 1, 2, 3)):
